@@ -7,7 +7,7 @@ import pandas as pd
 
 import pylife.strength.meanstress as MS
 
-from ..sym import sym_and, sym_or, sym_not, s_eq, SymReal, sym_implies
+from ..sym import sym_and, sym_or, sym_not, s_eq, SymReal, sym_implies, float_fraction
 from ..util import eq_struct, mutated
 
 PROPERTY = "C12"
@@ -53,19 +53,19 @@ def ray(R):
     """mean/amplitude ratio c of the ray R (exact): R = +-inf -> -1"""
     if math.isinf(R):
         return Fraction(-1)
-    R = Fraction(R)
+    R = float_fraction(float(R))
     return (1 + R) / (1 - R)
 
 
 def goodman_sectors(M, M2):
     # sectors in c = m/a: R > 1 <-> c < -1 (M=0);  -inf <= R <= 0 <-> -1 <= c <= 1 (M);  0 < R < 1 <-> c > 1 (M2)
-    return [(None, Fraction(-1), Fraction(0)), (Fraction(-1), Fraction(1), Fraction(M)), (Fraction(1), None, Fraction(M2))]
+    return [(None, Fraction(-1), Fraction(0)), (Fraction(-1), Fraction(1), float_fraction(M)), (Fraction(1), None, float_fraction(M2))]
 
 
 def five_sectors(p):
     c12, c23 = ray(p["R12"]), ray(p["R23"])
-    return [(None, Fraction(-1), Fraction(p["M4"])), (Fraction(-1), Fraction(1), Fraction(p["M0"])),
-            (Fraction(1), c12, Fraction(p["M1"])), (c12, c23, Fraction(p["M2"])), (c23, None, Fraction(p["M3"]))]
+    return [(None, Fraction(-1), float_fraction(p["M4"])), (Fraction(-1), Fraction(1), float_fraction(p["M0"])),
+            (Fraction(1), c12, float_fraction(p["M1"])), (c12, c23, float_fraction(p["M2"])), (c23, None, float_fraction(p["M3"]))]
 
 
 def haigh_walk(ctx, a, m, sectors, R_goal):
